@@ -10,6 +10,11 @@ D0_radius 2 0.0037559 0
 D0{K*(892)bar0{K-,pi+},rho(770)0{pi+,pi-}}    0    0.196    0.001    0    -0.39    0.006
 D0[P]{K*(892)bar0{K-,pi+},rho(770)0{pi+,pi-}}    2    1    0    2    0    0
 """,
+    "vv-rho-postfit": """EventType D0 K- pi+ pi+ pi-
+D0_radius 0 0.0041 0.0002
+D0{K*(892)bar0{K-,pi+},rho(770)0{pi+,pi-}}    0    0.211    0.002    0    -0.35    0.004
+D0[P]{K*(892)bar0{K-,pi+},rho(770)0{pi+,pi-}}    2    1    0    2    0    0
+""",
     "vv-omega": """EventType D0 K- pi+ pi+ pi-
 mixing_x 0 0.004 0.001
 D0{omega(782)0{pi+,pi-},K*(892)bar0{K-,pi+}}    0    0.5    0.01    0    1.25    0.02
@@ -47,7 +52,7 @@ K(1)(1270)bar-[D]{K*(892)bar0{K-,pi+},pi-}    0    0.76    0.02    0    -0.33   
 }
 NAMES = tuple(FILES)
 RESONANCES = {
-    "vv-rho": {"K*(892)bar0", "rho(770)0"}, "vv-omega": {"omega(782)0", "K*(892)bar0"}, "a1-spline": {"a(1)(1260)+", "rho(1450)0", "K(1460)bar-", "K*(892)bar0"},
+    "vv-rho": {"K*(892)bar0", "rho(770)0"}, "vv-rho-postfit": {"K*(892)bar0", "rho(770)0"}, "vv-omega": {"omega(782)0", "K*(892)bar0"}, "a1-spline": {"a(1)(1260)+", "rho(1450)0", "K(1460)bar-", "K*(892)bar0"},
     "kmatrix-focus": {"KPi00", "PiPi00", "K*(892)bar0", "PiPi10"}, "cart-1": {"rho(770)0", "rho(1450)0"}, "cart-0-partial": {"K(1)(1270)bar-", "rho(770)0", "K*(892)bar0"},
 }
 OPS = ("read-A", "read-G", "read-P", "cpp", "py")
